@@ -1,5 +1,129 @@
+"""C15 - clusters are the connected components / SciPy clusters of the stated distances."""
 from .. import AnalysisBroken
+from ..rules import Equiv, canon_binders, canon_params, check_equiv, compare_function, std_rewrites, where_of
+from ..terms import NONE, const, head, is_const, show, strip, strip_all, subst, walk
+from ._nn import check_rank2
+from .C05 import SPEC as C05_SPEC
+
+CLAIMED = True
+LEVEL = "other"
+TECHNIQUE = "value-provenance comparison of the clustering glue with a specification (canonical call forms); rank analysis of the edge subscript; ordering rule for Graph.simplify"
+TEXT = ("Decides only the repository-side glue (grade C): hierarchical_clustering returns (linkage(D, **linkage_kws), fcluster(that linkage, **cluster_kws)) with "
+        "D = metric.calc_pdist_vector of the tuple-converted input and the pcDelta default metric, in that order; graph_clustering builds the graph from "
+        "columns 0 and 1 of the neighbour list (empty list included) with n = len(nodes), takes weak connected components for 'cc' and the requested "
+        "igraph community method otherwise (after simplify()), pairs membership with nodes positionally and keeps the clusters whose count is > 1. "
+        "What igraph / SciPy compute from these inputs, and the single-linkage = connected-components identity, are not decided here.")
+NOTE = "Trusted: igraph Graph / connected_components / community_*; scipy linkage / fcluster; pandas value_counts / isin. Not decided: community algorithms, the single-linkage identity (mathematics over library results)."
+
+SPEC = '''
+def hierarchical_clustering(seqs, metric=None, linkage_kws=dict(method="average", optimal_ordering=True), cluster_kws=dict(t=6, criterion="distance")):
+    seqs = convert_tuple_to_dataframe_if_necessary(seqs)
+    if metric is None:
+        metric = get_default_metric_for_input_data(seqs)
+    linkage = hc.linkage(metric.calc_pdist_vector(seqs), **linkage_kws)
+    return linkage, hc.fcluster(linkage, **cluster_kws)
+'''
+GSPEC = '''
+def graph_clustering(adjacency_matrix, nodes, clustering="cc", **kwargs):
+    g = igraph.Graph(EDGES(adjacency_matrix), n=len(nodes))
+    if clustering == "cc":
+        components = g.connected_components(mode="weak")
+    else:
+        components = COMMUNITY(clustering, kwargs)
+    cluster_df = pd.DataFrame(dict(node=nodes, cluster=components.membership))
+    counts = cluster_df["cluster"].value_counts()
+    return cluster_df[cluster_df["cluster"].isin(set(counts[counts > 1].index))]
+'''
+ALL = ("slice", NONE, NONE, NONE)
+
+
+def graph_rewrite(t):
+    # <neighbour list as array, empty-safe>[:, :2]  ->  EDGES(list)
+    if head(t) == "sub" and strip(t[2]) == ("tuple", (ALL, ("slice", NONE, const(2), NONE))):
+        base = strip(t[1])
+        if head(base) == "call" and head(strip(base[1])) == "attr" and strip(base[1])[2] == "reshape" and tuple(base[2]) == (const(-1), const(3)):
+            return ("call", ("unbound", "EDGES"), (strip(base[1])[1],), ())
+    # eval(f'g.community_{clustering}')(**kwargs) [.as_clustering() when available]  ->  COMMUNITY(clustering, kwargs)
+    if head(t) == "anyof":
+        forms = set()
+        args = None
+        members = []
+
+        def flat(u):
+            u = strip(u)
+            if head(u) == "anyof":
+                for y in u[1]:
+                    flat(y)
+            else:
+                members.append(u)
+        flat(t)
+        for x in members:
+            x = strip(x)
+            if head(x) == "call" and x[1] == ("unbound", "COMMUNITY"):
+                forms |= {True, False}
+                args = tuple(x[2])
+                continue
+            as_c = False
+            if head(x) == "call" and head(strip(x[1])) == "attr" and strip(x[1])[2] == "as_clustering" and not x[2]:
+                x, as_c = strip(strip(x[1])[1]), True
+            if head(x) == "call" and head(strip(x[1])) == "call" and strip(strip(x[1])[1]) == ("glob", "builtins.eval"):
+                ev = strip(x[1])
+                f = strip(ev[2][0]) if ev[2] else None
+                if head(f) == "fstr" and len(f[1]) == 2 and is_const(f[1][0], "g.community_") and f[1][1][0] == "fmt" and not x[2] and len(x[3]) == 1 and x[3][0][0] == "**":
+                    forms.add(as_c)
+                    args = (f[1][1][1], x[3][0][1])
+                    continue
+            return t
+        if forms == {True, False} and args:
+            return ("call", ("unbound", "COMMUNITY"), args, ())
+    return t
 
 
 def run(r):
-    raise AnalysisBroken("rule set for C15 not implemented yet (fail-closed stub)")
+    rep = r.rep
+    rep.explanation = "The two clustering functions were reduced to canonical call terms and compared with the specification; the edge subscript was rank-checked; the ordering of simplify() was checked."
+    rep.trust("igraph.Graph(edges, n) has n vertices and the listed edges; connected_components(mode='weak').membership[k] is the component of vertex k",
+              "scipy.cluster.hierarchy.linkage / fcluster", "pandas value_counts / isin")
+    rw = std_rewrites(ident=("numpy.asarray", "numpy.array")) + [canon_binders]
+    compare_function(r, "C15-PIPE", "pyrepseq.distance.hierarchical_clustering", SPEC, "hierarchical_clustering returns (linkage of the metric's condensed distances, fcluster of that linkage), default metric as in pcDelta",
+                     eq=Equiv(rewrites=rw, modelled={"scipy.cluster.hierarchy.linkage", "scipy.cluster.hierarchy.fcluster"}), key="hierarchical pipeline")
+    q = "pyrepseq.clustering.graph_clustering"
+    s = r.A.summary(q)
+    pn = [p[0] for p in s.params]
+    ci = pn.index("clustering") if "clustering" in pn else 2
+    assume = ("cmp", "!=", ("param", f"#{ci}"), const("DBSCAN"))
+    compare_function(r, "C15-GRAPH", q, GSPEC, "graph_clustering: graph from columns 0/1 with n = len(nodes); weak components for 'cc', igraph community otherwise; membership paired with nodes; clusters with count > 1 kept",
+                     eq=Equiv(rewrites=rw + [graph_rewrite], modelled={"igraph.Graph", "pandas.DataFrame", "builtins.eval", "builtins.set"}), assume=assume, key="graph pipeline")
+    n = check_rank2(r, "C15-SHP", q)
+    rep.require(n >= 1, "C15-SHP: edge subscript on the neighbour array not found")
+    # the graph variable used by eval is the Graph built from the edges, simplified before community detection
+    g = s.env.get("g")
+    okg = g is not None and any(head(x) == "call" and strip(x[1]) == ("glob", "igraph.Graph") for x in walk(g))
+    rep.ob("C15-CFG", q, okg, "the local name used by the community call ('g') is the graph built from the edges", where_of(r.P, s.func, s.func.node), expected="g = igraph.Graph(edges, n=len(nodes))", found=show(g, 60), key="graph name")
+    simp = [e for e in s.events_of("call") if head(strip(strip(e["term"])[1])) == "attr" and strip(strip(e["term"])[1])[2] == "simplify"]
+    evs = [e for e in s.events_of("call") if strip(strip(e["term"])[1]) == ("glob", "builtins.eval")]
+    ok = bool(simp) and bool(evs) and simp[0].seq < evs[0].seq and any(head(x) == "call" and strip(x[1]) == ("glob", "igraph.Graph") for x in walk(strip(strip(simp[0]["term"])[1])[1]))
+    rep.ob("C15-CFG", q, ok, "multi-edges (both orientations of every neighbour pair) are collapsed before community detection", where_of(r.P, s.func, (simp[0] if simp else evs[0] if evs else s.events[0]).node),
+           expected="g.simplify() before g.community_*()", found="present" if ok else "missing / after", key="simplify first")
+    for rule in ("C15-PIPE", "C15-GRAPH", "C15-SHP"):
+        rep.floor(rule, 1)
+    rep.floor("C15-CFG", 2)
+
+
+from ..selftest import V  # noqa: E402
+
+CL = "pyrepseq/clustering.py"
+DI = "pyrepseq/distance.py"
+VARIANTS = [
+    V("D6b-empty-neighbour-list", CL, "edges = np.array(adjacency_matrix).reshape(-1, 3)[:, :2]", "edges = np.array(adjacency_matrix)[:, :2]", rule="C15"),
+    V("singletons-kept", CL, "cluster_counts[cluster_counts>1]", "cluster_counts[cluster_counts>=1]", rule="C15-GRAPH"),
+    V("return-order-swapped", DI, "    return linkage, cluster\n", "    return cluster, linkage\n", rule="C15-PIPE"),
+    V("fcluster-wrong-kws", DI, "cluster = hc.fcluster(linkage, **cluster_kws)", "cluster = hc.fcluster(linkage, **linkage_kws)", rule="C15-PIPE"),
+    V("edges-columns-1-2", CL, ".reshape(-1, 3)[:, :2]", ".reshape(-1, 3)[:, 1:]", rule="C15"),
+    V("n-dropped", CL, "g = igraph.Graph(edges, n=len(nodes))", "g = igraph.Graph(edges)", rule="C15-GRAPH"),
+    V("strong-components", CL, "g.connected_components(mode='weak')", "g.connected_components(mode='strong')", rule="C15-GRAPH"),
+    V("simplify-dropped", CL, "            g.simplify()\n", "", rule="C15-CFG"),
+    V("membership-reversed", CL, "cluster=components.membership))", "cluster=components.membership[::-1]))", rule="C15-GRAPH"),
+    V("linkage-of-cdist", DI, "    distances = metric.calc_pdist_vector(seqs)\n    linkage = hc.linkage", "    distances = metric.calc_cdist_matrix(seqs, seqs)\n    linkage = hc.linkage", rule="C15-PIPE"),
+    V("silent-inline-linkage", DI, "    distances = metric.calc_pdist_vector(seqs)\n    linkage = hc.linkage(distances, **linkage_kws)", "    linkage = hc.linkage(metric.calc_pdist_vector(seqs), **linkage_kws)", expect="silent"),
+]
